@@ -79,7 +79,7 @@ Section C09.
   Theorem C09_header_only : forall i : winst W, wf_wmd W i ->
     wmd_parse W read_w false true (meta0 (lit "wmd")) (readlines (wmd_write W show_w i)) =
     Ok (mkW (reparsed_meta (w_meta i)) (w_num_edges i) [] []).
-  Proof. exact (header_only_readlines W show_w read_w H_read_show H_show_nonempty H_show_no_comma H_show_no_space). Qed.
+  Proof. exact (header_only_readlines W show_w read_w H_show_nonempty H_show_no_space). Qed.
 End C09.
 
 Theorem C09_reparsed_same_content : forall W (i : winst W), wf_wmd W i -> same_content W i (reparsed W i).
